@@ -135,7 +135,33 @@ KERNELS_C = [
                 (r'\berror\((?:"[^"]*"|[^;"])*\);', "K_THROW_VOID;", 3), (r'\binfo\("[^"]*"\);', "(void)0;", (4, 6)),
                 (r"proj_data_info_ptr->is_tof_data\(\)", "g_is_tof", 1), (r"\bthis->", "self->", (10, 30)), SYMMEMBERS]),
 ]
-KERNELS += KERNELS_B + KERNELS_I + KERNELS_R + KERNELS_C
+# ---- set_up / clear_cache: after (re-)set-up for another geometry nothing cached for the old one survives ----
+PMB = "src/recon_buildblock/ProjMatrixByBin.cxx"
+PMRT = "src/recon_buildblock/ProjMatrixByBinUsingRayTracing.cxx"
+RT_SETUP = r"ProjMatrixByBinUsingRayTracing::set_up\(\s*const shared_ptr<const ProjDataInfo>& proj_data_info_sptr_v,\s*const shared_ptr<const DiscretisedDensity<3, float>>& density_info_sptr_v[^)]*\)"
+KERNELS_S = [
+    dict(name="K_pm_clear_cache", file=PMB, cxx_name="ProjMatrixByBin::clear_cache", func=r"ProjMatrixByBin::clear_cache\(\) const", c_header="void K_pm_clear_cache(const struct CACHE* self)", loops=2,
+         rules=[(r"this->cache_collection\.get_(min|max)_index\(\)", r"self->\1_view", 2), (r"this->cache_collection\[i\]\.get_(min|max)_index\(\)", r"BUCKET_ROW_\1(self, i)", 2),
+                (r"this->cache_collection\[i\]\[j\]\.clear\(\);", "BUCKET_CLEAR(self, i, j);", 1)]),
+    dict(name="K_pm_set_up_cache", file=PMB, cxx_name="ProjMatrixByBin::set_up: re-creation of the cache (statement kernel)",
+         func=r"ProjMatrixByBin::set_up\(const shared_ptr<const ProjDataInfo>& proj_data_info_sptr_v,\s*const shared_ptr<const DiscretisedDensity<3, float>>& density_info_sptr_v[^)]*\)",
+         span=(r"(?:this->cache_collection\.recycle\(\);\s*)?this->cache_collection\.resize\(min_view_num, max_view_num\);", r"this->cache_collection\[view_num\]\.resize\(min_segment_num, max_segment_num\);.*?\n    \}"),
+         c_header="void K_pm_set_up_cache(struct CACHE* self, const int min_view_num, const int max_view_num, const int min_segment_num, const int max_segment_num)", loops=1,
+         rules=[(r"this->cache_collection\.recycle\(\);", "CACHE_RECYCLE(self);", (0, 1)), (r"this->cache_collection\.resize\(min_view_num, max_view_num\);", "CACHE_RESIZE_OUTER(self, min_view_num, max_view_num);", 1),
+                (r"this->cache_collection\[view_num\]\.resize\(min_segment_num, max_segment_num\);", "CACHE_RESIZE_ROW(self, view_num, min_segment_num, max_segment_num);", 1)]),
+    dict(name="K_pmrt_set_up_skip", file=PMRT, cxx_name="ProjMatrixByBinUsingRayTracing::set_up: the 'already set up with the same characteristics' block (statement kernel)",
+         func=RT_SETUP, span=(r"if \(this->already_setup\)\s*\{", r"\n    \}"), c_header="void K_pmrt_set_up_skip(struct CACHE* self)", loops=0,
+         rules=[(r"this->already_setup", "self->already_setup", 1),
+                (r"\*this->proj_data_info_sptr == \*proj_data_info_sptr_v && this->voxel_size == image_info_ptr->get_voxel_size\(\)\s*&& this->origin == image_info_ptr->get_origin\(\)",
+                 "g_same_pdi && g_same_voxel_size && g_same_origin", 1),
+                (r"CartesianCoordinate3D<int> new_(min|max)_index;", "", 2), (r"image_info_ptr->get_regular_range\(new_min_index, new_max_index\);", "", 1),
+                (r"this->max_index == new_max_index && this->min_index == new_min_index", "g_same_max_index && g_same_min_index", 1),
+                (r'info\("[^"]*", 3\);', "(void)0;", 1), (r"\breturn;", "{ g_skipped = 1; return; }", (1, 2)), (r"this->clear_cache\(\);", "K_pm_clear_cache(self);", (0, 1))]),
+    dict(name="K_pmrt_set_up_tail", file=PMRT, cxx_name="ProjMatrixByBinUsingRayTracing::set_up: the last statements (statement kernel)", func=RT_SETUP,
+         span=(r"this->already_setup = true;", r"\Z"), c_header="void K_pmrt_set_up_tail(struct CACHE* self)", loops=0,
+         rules=[(r"this->already_setup = true;", "self->already_setup = 1;", 1), (r"this->clear_cache\(\);", "K_pm_clear_cache(self);", (0, 1))]),
+]
+KERNELS += KERNELS_B + KERNELS_I + KERNELS_R + KERNELS_C + KERNELS_S
 
 
 def extra_gen(repo, gen_dir, metas):
@@ -248,6 +274,17 @@ def jobs(tier, gen_dir):
                    flags=CH, no_base_flags=True, timeout=120, min_obligations=2, backend="kissat"))
     out.append(Job("c03/canary/K_sym_ctor_flags", HARNESS_I, "h_K_sym_ctor_flags", enforce="K_sym_ctor_flags", kernels=["K_sym_ctor_flags"], kind="canary", loop_contracts=True,
                    defines={"CANARY_K_sym_ctor_flags": None}, expect_fail=r"K_sym_ctor_flags\.postcondition", no_base_flags=True, timeout=120))
+    HS = os.path.join(VERIF, "harness", "c03s.c")
+    out.append(Job("c03/K_pm_clear_cache", HS, "h_K_pm_clear_cache", enforce="K_pm_clear_cache", kernels=["K_pm_clear_cache"], flags=CH, no_base_flags=True, timeout=120, min_obligations=3,
+                   backend="kissat", loop_contracts=True, replace=["BUCKET_ROW_min", "BUCKET_ROW_max"]))
+    out.append(Job("c03/K_pm_set_up_cache", HS, "h_K_pm_set_up_cache", enforce="K_pm_set_up_cache", kernels=["K_pm_set_up_cache"], flags=CH, no_base_flags=True, timeout=120, min_obligations=3,
+                   backend="kissat", loop_contracts=True, replay="setup"))
+    out.append(Job("c03/K_pmrt_set_up_skip", HS, "h_K_pmrt_set_up_skip", enforce="K_pmrt_set_up_skip", kernels=["K_pmrt_set_up_skip"], flags=CH, no_base_flags=True, timeout=120, min_obligations=2,
+                   backend="kissat", replace=["K_pm_clear_cache"], replay="setup"))
+    out.append(Job("c03/K_pmrt_set_up_tail", HS, "h_K_pmrt_set_up_tail", enforce="K_pmrt_set_up_tail", kernels=["K_pmrt_set_up_tail"], flags=CH, no_base_flags=True, timeout=120, min_obligations=2,
+                   backend="kissat", replace=["K_pm_clear_cache"], replay="setup"))
+    out.append(Job("c03/canary/K_pm_clear_cache", HS, "h_K_pm_clear_cache", enforce="K_pm_clear_cache", kernels=["K_pm_clear_cache"], kind="canary", loop_contracts=True,
+                   replace=["BUCKET_ROW_min", "BUCKET_ROW_max"], defines={"CANARY_K_pm_clear_cache": None}, expect_fail=r"K_pm_clear_cache\.postcondition", no_base_flags=True, timeout=120))
     out.append(Job("c03/canary/K_op_swap_xy_yx_img", HARNESS_I, "h_K_op_swap_xy_yx_img", enforce="K_op_swap_xy_yx_img", kernels=["K_op_swap_xy_yx_img"], kind="canary",
                    defines={"CANARY_K_op_swap_xy_yx_img": None}, expect_fail=r"K_op_swap_xy_yx_img\.postcondition", no_base_flags=True, timeout=120))
     out.append(Job("c03/canary/lemma_img_injective", HARNESS_I, "h_lemma_img_injective_swap_xy_yx", kind="canary", kernels=[], defines={"LEMMA_CANARY": None, "CONTRACTS_OFF": None},
@@ -280,6 +317,16 @@ def _tf(v, key, d):
 
 
 def replay(job, o, workroot, repo):
+    if "K_pm_" in job.name or "K_pmrt_" in job.name:
+        exe = os.path.join(workroot, "c03_rows_replay")
+        if not os.path.exists(exe):
+            exe, info = native.build(repo, os.path.join(VERIF, "replay", "c03_rows.cpp"), exe)
+            if not exe:
+                return {"status": "unavailable", "detail": "replay driver did not build: " + info}
+        st, detail = native.run(exe, ["setup"], timeout=1200)
+        if st == "confirmed":
+            return {"status": "confirmed", "detail": detail, "command": "c03_rows_replay setup", "from_verifier_counterexample": False}
+        return {"status": "not-reproduced", "detail": "c03_rows_replay setup: 4 histories of set_up calls against a freshly set-up matrix (" + str(detail)[:100] + ")"}
     if "K_rt_first_ray" in job.name or "_img" in job.name or "img_" in job.name:
         exe = os.path.join(workroot, "c03_rows_replay")
         if not os.path.exists(exe):
